@@ -78,6 +78,8 @@ ASSUMPTIONS = [
     "divergence already shown causal by a minimised witness in the same shard, else the first "
     "divergence of the minimised witness); hit counts per key are therefore approximate and a "
     "pervasive defect can hide a rarer one inside the same template (tiny unit templates limit that)",
+    "a small direct law rides along: programs whose cycle tags of one group are respelled in ways "
+    "str() normalises must render like their canonical spelling (keys respelling:*)",
     "thread_safe=True caching loaders (a threading.Lock in the cache) are outside the judged set; "
     "copy.deepcopy is checked alongside pickle because it goes through the same __reduce_ex__ "
     "protocol (keys deepcopy-*), although the property text names only pickling",
@@ -565,10 +567,16 @@ def divergences(kind: str, before: str, after: str) -> list[str]:
                     values.append(f"{name}@{_ctx_of(fb[i])}")
             continue
         out.extend(_pair_block(fb, fa, i1, i2, j1, j2))
-    if out:
-        return _prioritise(list(dict.fromkeys(out)))
+    out = list(dict.fromkeys(out))
+    values = list(dict.fromkeys(values))
+    causal = [d for d in out if d not in _BY_DESIGN]
+    by_design = [d for d in out if d in _BY_DESIGN]
+    if causal:
+        return causal + by_design
     if values:
-        return list(dict.fromkeys(values))
+        return values + by_design  # a changed value outranks a spelling change made by design
+    if by_design:
+        return by_design
     n = 0
     while n < min(len(before), len(after)) and before[n] == after[n]:
         n += 1
@@ -1128,6 +1136,28 @@ def _units(spec: dict[str, Any], ctx: Ctx) -> None:
             if r != "invalid":
                 last = (lab, feat, src)
             ctx.seen("environments", kind)
+    # Direct form of what the round trip relies on: a program and the same program with
+    # one cycle group's tags respelled (quotes, number spelling, nil/null, escapes,
+    # whitespace, trailing comma, quoted group name - everything str() normalises) are the
+    # same program ("cycle tags with the same items share one iterator").
+    if spec["i"] == 0:
+        for feat, prog, twin in G.RESPELLED:
+            try:
+                env = _env("shopify", G.PARTIALS)
+                a = _render_all(env.from_string(prog), datas)
+                b = _render_all(env.from_string(twin), datas)
+            except Exception:  # noqa: BLE001
+                ctx.count("rejected_by_parser:respelling")
+                continue
+            ctx.ev()
+            ctx.count("respelling_pairs")
+            if a != b:
+                j = next((i for i, (x, y) in enumerate(zip(a, b)) if x != y), 0)
+                ctx.violation("respelling:" + feat.rsplit("-", 1)[0],
+                              f"equal cycle groups spelled differently do not share an iterator: {prog!r} renders "
+                              f"{a[j]!r}, its canonical spelling {twin!r} renders {b[j]!r}",
+                              {"check": "respelling", "kind": "shopify", "source": prog, "twin": twin,
+                               "templates": G.PARTIALS, "datas": [datas[j]]})
     # the fixed partials are subjects too
     if spec["i"] == 0:
         for name in G.PARTIALS:
@@ -1204,6 +1234,7 @@ def floors(tier: str) -> dict[str, int]:
         "state_cases_rendering": 250,
         "set:state_paths": 16,
         "xproc_pickles": 300,
+        "respelling_pairs": 30,
     }
 
 
@@ -1224,6 +1255,14 @@ def run_shard(spec: dict[str, Any], ctx: Ctx) -> None:
 def replay(wit: dict[str, Any], ctx: Ctx) -> None:
     case = Case(wit.get("kind", "std"), wit["source"], wit.get("templates") or {}, wit.get("subject", ""),
                 wit.get("datas") or [{}])
+    if wit.get("check") == "respelling":
+        env = _env(wit.get("kind", "shopify"), wit.get("templates") or {})
+        a = _render_all(env.from_string(wit["source"]), wit["datas"])
+        b = _render_all(env.from_string(wit["twin"]), wit["datas"])
+        print(f"replay C12 respelling: {wit['source']!r} -> {a!r}\n  twin {wit['twin']!r} -> {b!r}")
+        if a != b:
+            ctx.violation("respelling:cycle-spelling", "respelled cycle group renders differently", dict(wit))
+        return
     if wit.get("check") in ("state", "xproc"):
         from .. import c12_state
 
